@@ -46,6 +46,7 @@ class FileModel:
 
 
 def _setup_module(I, st, file_kind="json", symbolic=True, defaults_present=False):
+    st.pop("dumps_kw", None)
     I.lib["appdirs.user_config_dir"] = lambda I, **k: SAtom(z3.Int("config_dir"))
     I.lib["argparse.ArgumentParser"] = lambda I, **k: sx.Opaque("parser")
     I.lib["pathlib.Path"] = lambda I, p: p if isinstance(p, sx.Obj) else sx.LibRef("some.path")
